@@ -62,6 +62,8 @@ class Unit:
         self.glob = {}
         self.flags = []
         self.sections = []
+        self.retag = []
+        self.sitetag = []
         self.path = None
 
 
@@ -118,6 +120,12 @@ def parse_unit(name):
                         raise SystemExit("%s: unterminated @global" % path)
                     buf += "\n" + lines[j]
             i = j
+        elif key == "@sitetag":
+            w = rest.split()
+            u.sitetag.append((w[0], w[1], w[2:]))
+        elif key == "@retag":
+            w = rest.split()
+            u.retag.append((w[0], " ".join(w[1:])))
         elif key == "@verus-flags":
             u.flags += rest.split()
         elif key == "@include":
@@ -146,7 +154,7 @@ def parse_unit(name):
                 blocks = {}
                 cur = None
                 while j < n and lines[j].strip() != "@end":
-                    mm = re.match(r"^(spec|loop \d+|closure \d+|anchor \S+|after)\s*:\s*$", lines[j].strip())
+                    mm = re.match(r"^(spec|loop \d+\??|closure \d+\??|anchor \S+?\??|after)\s*:\s*$", lines[j].strip())
                     if mm and not lines[j].startswith(" " * 8):
                         cur = mm.group(1)
                         blocks[cur] = []
@@ -263,6 +271,7 @@ class Assembled:
         self.tag_text = {}      # tag -> clause text
         self.lint = []
         self.assumed = []       # callee contracts assumed in this unit (proved in another unit)
+        self.sitetag = []       # (function, regex on the source text of the failing site, tags)
 
 
 def indent_of(line):
@@ -288,6 +297,8 @@ def splice(fn_text, blocks, res, sec, unit):
         else:
             key = "anchor " + ph[7:]
         body = blocks.get(key)
+        if body is None and (key + "?") in blocks:
+            body = blocks.get(key + "?")
         used.add(key)
         ind = " " * indent_of(line)
         before = line[:m.start()].rstrip()
@@ -301,7 +312,12 @@ def splice(fn_text, blocks, res, sec, unit):
                     out_lines.append(ind + "    " + l[base:])
         if after:
             out_lines.append(ind + after)
+    for k in list(blocks):
+        if k.endswith("?"):
+            continue
     for k in blocks:
+        if k.endswith("?"):
+            continue
         if k not in used and k != "after":
             raise Undecided("lost anchor: recipe block `%s` of %s has no matching site in the extracted function (unit %s)" % (k, sec.name, unit.name))
     return "\n".join(out_lines)
@@ -360,6 +376,7 @@ def audit_recipe_block(key, lines, where):
 def assemble(unit, twin=False):
     """Returns Assembled.  Raises Undecided on lost anchors / unsupported constructs."""
     a = Assembled()
+    a.sitetag = list(unit.sitetag)
     # 1. gather extraction requests
     items = []
     for s in unit.sections:
@@ -400,7 +417,7 @@ def assemble(unit, twin=False):
                 if exp_fp and exp_fp != r["fingerprint"]:
                     raise Undecided("lost anchor: signature of %s changed: expected %s, found %s" % (s.name, exp_fp, r["fingerprint"]))
                 for key, body in s.blocks.items():
-                    audit_recipe_block(key, body, "%s:%s" % (unit.name, s.name))
+                    audit_recipe_block(key.rstrip("?"), body, "%s:%s" % (unit.name, s.name))
                 blocks = dict(s.blocks)
                 if twin:
                     sp = list(blocks.get("spec", []))
@@ -430,6 +447,8 @@ def assemble(unit, twin=False):
         body.append("// ---- %s%s" % ("extracted " if meta else "", origin))
         body.append(text)
     text = "\n".join(body)
+    for (frm, to) in unit.retag:
+        text = re.sub(r"(//\s*@ob\s+)" + re.escape(frm) + r"\b", lambda m: m.group(1) + to, text)
     text = expand_toks_templates(text)
     text, table, code = intern_tokens(text)
     full = "// GENERATED by vx from units/%s.vxu and %s's working tree - do not edit\n%s" % (unit.name, REPO, table)
@@ -497,6 +516,16 @@ def assemble(unit, twin=False):
 # ---------------------------------------------------------------------------------------------
 # Verus
 # ---------------------------------------------------------------------------------------------
+
+def fn_name_at(asm, s0, e0):
+    """name of the extracted function printed in the generated range [s0, e0]"""
+    lines = asm.text.split("\n")
+    for k in range(s0 - 1, min(e0, len(lines))):
+        m = re.match(r"\s*pub (?:const )?fn (\w+)", lines[k])
+        if m:
+            return m.group(1)
+    return None
+
 
 class VerusResult:
     def __init__(self):
@@ -609,6 +638,15 @@ def run_verus(path, asm, flags=(), seed=None, rlimit=None, only_fn=None, timeout
                 for sp in spans:
                     if s0 <= sp["line_start"] <= e0:
                         fn = lab
+            if not tags:
+                # site tags: an obligation carried by a call site in the extracted code (precondition of a std contract)
+                site_text = " ".join(t.get("text", "") for sp in prim for t in sp.get("text", []))
+                fn_lines = " ".join(l for (s0, e0, lab) in asm.fn_ranges for sp in prim if s0 <= sp["line_start"] <= e0 for l in [lab])
+                for (fname, rx, tg) in getattr(asm, "sitetag", []):
+                    in_fn = any(s0 <= sp["line_start"] <= e0 and fn_name_at(asm, s0, e0) == fname for (s0, e0, lab) in asm.fn_ranges for sp in prim)
+                    if in_fn and re.search(rx, site_text):
+                        tags = list(tg)
+                        break
             r.failures.append({"message": msg, "line": line_no or pl, "tags": tags, "rendered": rendered, "fn": fn})
         else:
             r.tool_errors.append(rendered)
